@@ -114,8 +114,8 @@ class WriterHarness(thrx.Harness):
     settings = env.boot()
     env.reset_state()
     settings['CACHE_WRITE_STRATEGY'] = p['strategy']
-    settings['MAX_CACHE_SIZE'] = INF
-    settings['USE_FLOW_CONTROL'] = False
+    settings['MAX_CACHE_SIZE'] = p.get('max_cache') or INF
+    settings['USE_FLOW_CONTROL'] = bool(p.get('flow'))
     settings['MIN_TIMESTAMP_LAG'] = p.get('lag', 0)
     settings['MAX_CREATES_PER_MINUTE'] = p.get('max_creates', INF)
     settings['MAX_UPDATES_PER_SECOND'] = p.get('max_updates', INF)
@@ -160,6 +160,17 @@ class WriterHarness(thrx.Harness):
       exec(code, carbon.writer.__dict__)
     self.reported = {}
     self.reports = 0
+    if p.get('max_cache'):
+      import math
+      hard = p['max_cache'] * 1.05 if p.get('flow') else p['max_cache']
+      limit = math.ceil(hard)
+
+      def at_point(sched):
+        total = sum(map(len, dict.values(self.cache)))
+        if total > limit:
+          return ('bound-exceeded', 'cache holds %d datapoints, hard limit %s' % (total, hard))
+        return None
+      s.at_point = at_point
     # a lock of the library that both threads take must be the scheduler's (a real one would block the baton holder)
     self.saved_stats_lock = getattr(instrumentation, 'stats_lock', None)
     if self.saved_stats_lock is not None:
@@ -328,6 +339,8 @@ class WriterHarness(thrx.Harness):
       return None
     if self.writer_exc is not None:
       return ('writer-crash', 'writeForever() raised %r' % (self.writer_exc,))
+    if tuple(self.p.get('oracles', ())) == ('c10',):
+      return None       # only the bound is judged here (at every scheduling point); the accounting is C03's business
     return self.accounting(final_must_be_empty='c04' in self.p.get('oracles', ()))
 
   def accounting(self, final_must_be_empty):
@@ -465,7 +478,7 @@ def run_jobs(ctx, jobs, prop, required):
   jobs = [(fractional_timestamps(j[0]), j[1]) for j in jobs]
   jobs = core.seeded_order(jobs, ctx.seed)
   from . import daemonconf
-  daemonconf.prefetch([(INF, False, 'base')])
+  daemonconf.prefetch([(j[0].get('max_cache') or INF, bool(j[0].get('flow')), 'base') for j in jobs])
   phase1 = core.pmap(_phase1, [(j, j[1][0] + j[1][1] >= 2) for j in jobs], chunksize=1)
   results = [None] * len(jobs)
   tasks = []
